@@ -126,6 +126,7 @@ func c18Run(tier string, seed int64, idx int) *core.Result {
 	var keepWriting atomic.Bool
 	keepWriting.Store(c.Family == "cancel-writer")
 	var cancelTick uint64
+	cancelReturned := false
 	var cancelTarget *c18Conn
 	dm := goat.NewDemux(ctx, shared.B, func(r *goat.Rpc) string { return r.GetHeader().GetSource() }, func(rw goat.RpcReadWriter) {
 		// the key is learnt from the first envelope read
@@ -223,6 +224,7 @@ func c18Run(tier string, seed int64, idx int) *core.Result {
 	}
 	fed := map[string][]uint64{}
 	fedAfterCancel := map[uint64]bool{} // envelopes handed to the shared transport after Cancel had returned
+	victimKey := keys[0]
 	feed := func(n int, key string) bool {
 		e := &wire.Rpc{Id: uint64(1000 + n), Header: &goatorepo.RequestHeader{Method: "/m", Source: key, Destination: "srv"}, Body: &goatorepo.Body{Data: []byte{byte(n)}}}
 		core.Cursor(fmt.Sprintf("%s: feeding envelope %d key %s", c.Family, n, key))
@@ -231,7 +233,7 @@ func c18Run(tier string, seed int64, idx int) *core.Result {
 		go func() { done <- shared.A.Write(fctx, e) }()
 		var err error
 		got := false
-		st, _ := settle(tier, func() bool {
+		st, snap := settle(tier, func() bool {
 			select {
 			case err = <-done:
 				got = true
@@ -241,6 +243,11 @@ func c18Run(tier string, seed int64, idx int) *core.Result {
 			}
 		})
 		fcancel()
+		if st == "stuck" && (cancelTick != 0 || cancelReturned) && (c.Family == "cancel" || c.Family == "cancel-handoff") {
+			// every consumer drains and nothing was stopped: a run loop that takes no more envelopes
+			// from the shared transport after a Cancel is stuck on the cancelled connection
+			res.ViolateD("demux-stops-reading-after-cancel/"+c.Family, map[string]any{"goat_goroutines": goatParked(snap)}, "after Cancel(%s) the demultiplexer no longer takes envelopes from the shared transport (envelope %d for key %s; final state)", victimKey, n, key)
+		}
 		if st != "ok" {
 			return false // the demux does not take it (stopped / parked): not by itself a violation
 		}
@@ -295,6 +302,7 @@ func c18Run(tier string, seed int64, idx int) *core.Result {
 					}
 					mu.Unlock()
 					dm.Cancel(victim)
+					cancelReturned = true
 					res.Stat("cancel_between_lookup_and_handoff", 1)
 				}
 				close(release)
